@@ -28,7 +28,13 @@
 (*               (matters in room versions with strict key validity)       *)
 (* and the event a time mode: normal, or origin_server_ts 6 / 8 days in    *)
 (* the future of the verifier's clock with keys valid for 30 more days     *)
-(* (strict versions: validity is capped at 7 days from now).               *)
+(* (strict versions: validity is capped at 7 days from now), or at one of   *)
+(* the ends of the range a count of milliseconds can take (Instants below: *)
+(* 0, 1, the first instant that does not fit a signed 64-bit count, the    *)
+(* largest instant the room version admits), with keys valid there.        *)
+(* Several events whose signatures need the same keys at different         *)
+(* instants can be verified through ONE call of the key ring (section      *)
+(* "Batches"): every message gets the verdict it would get alone.          *)
 (*                                                                         *)
 (* Pseudo-ID rooms (org.matrix.msc4014): users are keys and sign for       *)
 (* themselves; "the sender's server" is the sender key, "the invited       *)
@@ -41,7 +47,10 @@ EXTENDS Redaction
 
 CONSTANTS Versions,
           MaxFaults,     \* how many required servers carry a fault at once (1 or 2)
-          SourceVersions \* room versions for which the key sources are varied
+          SourceVersions, \* room versions for which the key sources are varied
+          BatchVersions,  \* room versions for which batches (section "Batches") are enumerated
+          BatchLens,      \* the numbers of messages a batch can have
+          FullRange       \* TRUE: instants up to 2^64 - 1 where canonical JSON does not cap them; FALSE: up to 2^63 - 1
 
 Servers == {"s1", "s2", "s3", "s4", "sx"}
 MemberKinds == {"join", "invite", "leave", "ban", "knock"}
@@ -92,7 +101,33 @@ KeptKey(v, e) == IF KeptCon(v, e) \ {NestedKey} = {} THEN "" ELSE CHOOSE k \in K
 TimeFaults == {"expired", "after_vu", "exp_eq", "vu_m1"}
 TimeGood == {"vu_eq", "exp_later", "exp_next"}
 OtherModes == {"absent", "ok", "corrupt", "malformed"}    \* what every server that is not required carries
-TimeModes == {"normal", "future6d", "future8d"}
+\* --- the ends of the time line ---------------------------------------------------------------------------------
+\* origin_server_ts, valid_until_ts and expired_ts count milliseconds from 0 upwards.  An instant is an instant:
+\* nothing about 0, 1 or a very large count is special to the property sentence.
+\*   at0     origin_server_ts = 0             at1     origin_server_ts = 1
+\*   atmax   the largest origin_server_ts the room version admits: 2^53 - 1 where canonical JSON is enforced on
+\*           events (room version 6 on), before that whatever an unsigned 64-bit count holds (2^64 - 1)
+\*   atwrap  2^63, where it is admitted: the first count that a signed 64-bit integer no longer holds
+\* at0 / at1 lie in the verifier's past like "normal"; atwrap / atmax far beyond 7 days from now like "future8d".
+Instants == {"at0", "at1", "atwrap", "atmax"}
+InstantsOf(v) == IF PseudoIDs(v) THEN {"at0", "at1"}     \* (the mxid_mapping's key validity is not modelled)
+                 ELSE {"at0", "at1", "atmax"} \cup (IF EnforcedCanonJSON(v) \/ ~FullRange THEN {} ELSE {"atwrap"})
+\* (FullRange = FALSE stops at the largest count a signed 64-bit integer holds)
+MaxTS(v) == IF EnforcedCanonJSON(v) THEN "2p53m1" ELSE IF FullRange THEN "2p64m1" ELSE "2p63m1"
+TimeModes == {"normal", "future6d", "future8d"} \cup Instants
+Beyond7d(t) == t \in {"future8d", "atwrap", "atmax"}
+InThePast(t) == t \in {"normal", "at0", "at1"}
+\* The key tables count from 0 too, and 0 in them means "none" (valid_until_ts 0: no validity; expired_ts 0: not
+\* expired).  A state that needs a table entry at or before origin_server_ts does not exist at 0 (vu_eq, exp_eq) or
+\* needs a non-zero instant below it (expired, after_vu, vu_m1: not at 0 or 1); nothing lies after the largest
+\* instant (exp_later, exp_next: not at atmax).
+Unrealisable(t) == CASE t = "at0" -> {"vu_eq", "exp_eq", "expired", "after_vu", "vu_m1"}
+                     [] t = "at1" -> {"expired", "after_vu", "vu_m1"}
+                     [] t = "atmax" -> {"exp_later", "exp_next"}
+                     [] OTHER -> {}
+\* order of the instants (TLC: ranks); "now" (and now + 7 / 30 days) lies between "normal" and the far instants
+Rank(t) == CASE t = "at0" -> 0 [] t = "at1" -> 1 [] t = "normal" -> 2 [] t = "atwrap" -> 4 [] t = "atmax" -> 5
+NowRank == 3
 
 \* Where the verifier's keys come from (the key ring: a database, then key fetchers for what the database lacks
 \* or holds past its valid_until_ts).  src[s] says where the keys of server s are: in the database, or only at
@@ -108,8 +143,9 @@ TimeModes == {"normal", "future6d", "future8d"}
 \* fail: "none" | "db" | "fetcher" - which key source answers every lookup with an error
 \* mapst (pseudo-ID joins only): the mxid_mapping of the join: "ok" | "missing" | "corrupt" (its server signature
 \* does not verify); everywhere else "ok"
-VARIABLES ver, ev, sig, tm, src, vol, pres, fail, mapst, verdict, phase
-vars == <<ver, ev, sig, tm, src, vol, pres, fail, mapst, verdict, phase>>
+\* bt: the batch (NoBatch: a single event), bres: what the batch yields (section "Batches")
+VARIABLES ver, ev, sig, tm, src, vol, pres, fail, mapst, verdict, phase, bt, bres
+vars == <<ver, ev, sig, tm, src, vol, pres, fail, mapst, verdict, phase, bt, bres>>
 
 \* --- the property sentence -----------------------------------------------------------------------
 Required(v, e) ==
@@ -121,7 +157,7 @@ Required(v, e) ==
 \* a signature state is a valid signature by a key valid at origin_server_ts under the version's rule
 Good(st, t, v) ==
     IF PseudoIDs(v) THEN st \in {"ok", "two_onebad", "mal_good"}
-    ELSE CASE st \in {"ok", "vu_eq", "two_onebad", "mal_good"} -> (t # "future8d" \/ ~StrictKeyValidity(v))
+    ELSE CASE st \in {"ok", "vu_eq", "two_onebad", "mal_good"} -> (~Beyond7d(t) \/ ~StrictKeyValidity(v))
            [] st \in {"exp_later", "exp_next"} -> TRUE
            [] st \in {"after_vu", "vu_m1"} -> ~StrictKeyValidity(v)
            [] OTHER -> FALSE
@@ -196,12 +232,94 @@ Sources(v, e, a) ==
             \cup {<<[s \in Servers |-> IF s \in F THEN fk ELSE "db"], FALSE>> : F \in sets \ {{}}, fk \in {"direct", "persp"}}
        ELSE {<<AllDB, FALSE>>}
 
+\* --- the ends of the time line: scenarios ------------------------------------------------------------
+\* What an instant can matter to: the key-validity path.  Every state that says something about time, and one
+\* representative per way a signature can be wrong; one event per number of required servers (with two faults
+\* at once - the thorough tier - every event and every state).
+InstantStates == IF MaxFaults >= 2 THEN (GoodStates \cup Faults) \ {"vouched"}
+                 ELSE {"ok", "two_onebad", "absent", "corrupt", "wrongkey", "unknownkey"} \cup TimeGood \cup TimeFaults
+InstantEvents(v) ==
+    IF MaxFaults >= 2 THEN {e \in Events(v) : FullFamily(e)}
+    ELSE {e \in Events(v) :
+             /\ FullFamily(e)
+             /\ \/ e.kind = "nonmember"
+                \/ (e.kind = "invite" /\ ~e.via /\ e.tsrv = "s2" /\ e.esrv = "s1")
+                \/ (e.kind = "join" /\ e.via /\ e.asrv = "s3" /\ e.tsrv = "s1" /\ e.esrv = "s1" /\ RestrictedSupported(v))
+                \/ (e.kind = "join" /\ ~e.via /\ e.tsrv = "s1" /\ PseudoIDs(v))}
+InstantAssignments(v, e, t) ==
+    LET RR == Required(v, e)
+        S == ((StatesFor(v, e) \cap InstantStates) \ Unrealisable(t)) \ {"ok"}
+        mk(f) == [s \in Servers |-> IF s \in RR THEN f[s] ELSE "absent"]
+    IN {mk([s \in RR |-> "ok"]), mk([s \in RR |-> "absent"])}
+       \cup {mk([s \in RR |-> IF s = r THEN st ELSE "ok"]) : r \in RR, st \in S}
+\* strict key validity over a range of instants that canonical JSON does not cap: a class of its own here
+InstantSourceVersions == SourceVersions \cup {v \in Versions : StrictKeyValidity(v) /\ ~EnforcedCanonJSON(v)}
+InstantSources(v, e, a) ==
+    LET RR == Required(v, e)
+        timely == \A s \in RR : a[s] \in {"ok"} \cup TimeGood \cup TimeFaults
+    IN {<<AllDB, FALSE>>}
+       \cup (IF v \in InstantSourceVersions /\ ~PseudoIDs(v) /\ timely
+             THEN {<<[s \in Servers |-> IF s = r THEN "fetcher" ELSE "db"], vl>> : r \in RR, vl \in BOOLEAN} \cup {<<AllDB, TRUE>>}
+             ELSE {})
+
+\* --- Batches --------------------------------------------------------------------------------------------
+\* The key ring verifies many messages in one call.  A batch here: the scenario's event sent n times, message j
+\* at instant ats[j], every one validly signed by every required server with that server's ONE key - except
+\* message `bad` (0: none), whose signature of the sender's server is corrupted.  The other required servers'
+\* keys are current ("cur").  The key of the sender's server is (kv):
+\*   cur      current: valid_until_ts = now + 30 days
+\*   vu / j   current, valid_until_ts = the instant of message j (not instant 0: 0 means none)
+\*   exp / j  retired: expired_ts = the instant of message j (not 0; an instant in the past)
+\*   notary / j  held by nobody but a notary-like key source, which has two signed copies of it: a cached one with
+\*            valid_until_ts = the instant of message j and a fresh one (now + 30 days), and answers a request
+\*            "valid until at least T" the way notaries do: the cached copy if it reaches T, else the fresh one.
+\* where: the database ("db"), only the fetcher ("fetcher"), the notary ("notary").
+\* The key sources are asked ONCE per key, for one instant: to serve every message of the batch that has to be
+\* the latest instant the key is needed for - whatever that instant is (0 included).
+NoBatch == [ats |-> <<>>, kv |-> "none", j |-> 0, bad |-> 0, where |-> "none"]
+NoRes == [verds |-> <<>>, asked |-> "none"]
+SeqsOver(S, n) == [1..n -> S]
+BatchEvents(v) == {e \in Events(v) : /\ e.esrv = "s1" /\ ~e.via
+                                     /\ \/ (e.kind = "nonmember" /\ e.etype = "m.room.message")
+                                        \/ (e.kind = "invite" /\ e.tsrv = "s2")}
+KeyModes(a, n) ==
+    {<<"cur", 0, "db">>, <<"cur", 0, "fetcher">>}
+    \cup {<<"vu", jj, w>> : w \in {"db", "fetcher"}, jj \in {x \in 1..n : a[x] # "at0"}}
+    \cup {<<"exp", jj, "db">> : jj \in {x \in 1..n : a[x] # "at0" /\ Rank(a[x]) < NowRank}}
+    \cup {<<"notary", jj, "notary">> : jj \in {x \in 1..n : a[x] # "at0"}}
+\* (a corrupted message: with the plain key, wherever it is)
+BatchesOf(a, n) ==
+    UNION {{[ats |-> a, kv |-> k[1], j |-> k[2], bad |-> b, where |-> k[3]] : b \in (IF k[1] = "cur" THEN 0..n ELSE {0})} :
+              k \in KeyModes(a, n)}
+Batches(v) == UNION {UNION {BatchesOf(a, n) : a \in SeqsOver(InstantsOf(v) \cup {"normal"}, n)} : n \in BatchLens}
+
+\* what a key source can say about a key: [vu: instant or "now30", exp: instant or "none"]
+CurKey == [vu |-> "now30", exp |-> "none"]
+VuRank(x) == IF x = "now30" THEN NowRank ELSE Rank(x)
+\* valid at instant i under the room version's rule (strict: up to valid_until_ts, and not beyond 7 days from now;
+\* a retired key: strictly before its expired_ts)
+ValidAt(key, i, v) ==
+    IF key.exp # "none" THEN Rank(i) < Rank(key.exp)
+    ELSE ~StrictKeyValidity(v) \/ (Rank(i) <= VuRank(key.vu) /\ Rank(i) < NowRank)
+Latest(ats) == CHOOSE i \in {ats[x] : x \in DOMAIN ats} : \A x \in DOMAIN ats : Rank(ats[x]) <= Rank(i)
+\* what the key sources hand out for the key of the sender's server when asked for validity up to instant T
+KeyGiven(b, T) ==
+    CASE b.kv = "cur" -> CurKey
+      [] b.kv = "vu" -> [vu |-> b.ats[b.j], exp |-> "none"]
+      [] b.kv = "exp" -> [vu |-> "now30", exp |-> b.ats[b.j]]
+      [] b.kv = "notary" -> IF Rank(T) <= Rank(b.ats[b.j]) THEN [vu |-> b.ats[b.j], exp |-> "none"] ELSE CurKey
+\* message x of batch b, given that the sources were asked for instant T
+MsgVerdict(v, e, b, x, T) ==
+    /\ b.bad # x
+    /\ ValidAt(KeyGiven(b, T), b.ats[x], v)
+    /\ \A s \in Required(v, e) \ {"s1"} : ValidAt(CurKey, b.ats[x], v)
+
 Init ==
     /\ \E v \in Versions : \E e \in Events(v) :
           /\ ver = v
           /\ ev = e
           /\ \/ (\E a \in Assignments(v, e) : \E k \in Sources(v, e, a) :
-                    /\ sig = a /\ tm = "normal" /\ src = k[1] /\ vol = k[2]
+                    /\ sig = a /\ tm = "normal" /\ src = k[1] /\ vol = k[2] /\ bt = NoBatch
                     \* failing key sources: with everything signed well (what would otherwise succeed)
                     /\ fail \in (IF v \in SourceVersions /\ ~PseudoIDs(v) /\ FullFamily(e)
                                     /\ (\A s \in Servers : a[s] = IF s \in Required(v, e) THEN "ok" ELSE "absent")
@@ -220,21 +338,45 @@ Init ==
                                  THEN {"trusted", "received"} ELSE {"trusted"}))
              \/ (~PseudoIDs(v) /\ FullFamily(e) /\ sig = [s \in Servers |-> IF s \in Required(v, e) THEN "ok" ELSE "absent"]
                  /\ tm \in {"future6d", "future8d"} /\ src = AllDB /\ vol = FALSE /\ pres = "trusted"
-                 /\ fail = "none" /\ mapst = "ok")
+                 /\ fail = "none" /\ mapst = "ok" /\ bt = NoBatch)
+             \* the ends of the time line
+             \/ (e \in InstantEvents(v) /\ \E t \in InstantsOf(v) : \E a \in InstantAssignments(v, e, t) : \E k \in InstantSources(v, e, a) :
+                    /\ sig = a /\ tm = t /\ src = k[1] /\ vol = k[2] /\ fail = "none" /\ mapst = "ok" /\ bt = NoBatch
+                    /\ pres \in (IF k = <<AllDB, FALSE>> /\ ~(PseudoIDs(v) /\ e.kind = "join")
+                                    /\ (\A s \in Required(v, e) : a[s] = "ok")
+                                 THEN {"trusted", "received"} ELSE {"trusted"}))
+             \* batches through one call of the key ring
+             \/ (v \in BatchVersions /\ ~PseudoIDs(v) /\ e \in BatchEvents(v)
+                 /\ sig = [s \in Servers |-> IF s \in Required(v, e) THEN "ok" ELSE "absent"]
+                 /\ tm = "normal" /\ src = AllDB /\ vol = FALSE /\ pres = "trusted" /\ fail = "none" /\ mapst = "ok"
+                 /\ bt \in Batches(v))
     /\ verdict = FALSE
+    /\ bres = NoRes
     /\ phase = "init"
 
 \* VerifyEventSignatures
 Check ==
-    /\ phase = "init"
+    /\ phase = "init" /\ bt = NoBatch
     /\ verdict' = (Verify(ver, ev, EffSig(sig, src, vol, fail), tm, pres) /\ mapst = "ok")
     /\ phase' = "done"
-    /\ UNCHANGED <<ver, ev, sig, tm, src, vol, pres, fail, mapst>>
+    /\ UNCHANGED <<ver, ev, sig, tm, src, vol, pres, fail, mapst, bt, bres>>
 
-Next == Check
+\* KeyRing.VerifyJSONs over the requests of all the messages of a batch: ask the sources for every key once, at
+\* the latest instant it is needed for; then judge each message at its own instant
+CheckBatch ==
+    /\ phase = "init" /\ bt # NoBatch
+    /\ LET T == Latest(bt.ats)
+           vs == [x \in DOMAIN bt.ats |-> MsgVerdict(ver, ev, bt, x, T)]
+       IN /\ bres' = [verds |-> vs, asked |-> T]
+          /\ verdict' = \A x \in DOMAIN bt.ats : vs[x]
+    /\ phase' = "done"
+    /\ UNCHANGED <<ver, ev, sig, tm, src, vol, pres, fail, mapst, bt>>
+
+Next == Check \/ CheckBatch
 Spec == Init /\ [][Next]_vars
 
 Done == phase = "done"
+Single == Done /\ bt = NoBatch
 R == RequiredP(ver, ev, pres)
 
 \* --- the property, restated over the outcome (independent of Verify) -------------------------------
@@ -252,19 +394,21 @@ PCovers ==
 TypeOK == /\ ev.kind \in Kinds /\ ev.tsrv \in Servers /\ ev.asrv \in Servers /\ ev.esrv \in Servers
           /\ \A s \in Servers : sig[s] \in GoodStates \cup Faults
           /\ tm \in TimeModes
+          /\ (bt = NoBatch \/ (Len(bt.ats) \in BatchLens /\ bt.bad \in 0..Len(bt.ats) /\ bt.j \in 0..Len(bt.ats)))
+          /\ (Done /\ bt # NoBatch => Len(bres.verds) = Len(bt.ats))
 \* succeeds exactly when every required server validly signed
-PExact == Done => (verdict <=> (mapst = "ok" /\ \A s \in R : Good(Eff(sig[s], src[s], vol, fail), tm, ver) = TRUE))
+PExact == Single => (verdict <=> (mapst = "ok" /\ \A s \in R : Good(Eff(sig[s], src[s], vol, fail), tm, ver) = TRUE))
 \* a key source that fails never makes an event verify
-PFail == Done => /\ (fail = "db" /\ R # {} => ~verdict)
+PFail == Single => /\ (fail = "db" /\ R # {} => ~verdict)
                  /\ (fail # "none" => (verdict => Verify(ver, ev, EffSig(sig, src, vol, "none"), tm, pres)))
 \* an expired key is final, and where the keys come from matters only to a key held past its valid_until_ts
-PSources == Done => /\ (\A s \in R : sig[s] = "expired" => ~verdict)
+PSources == Single => /\ (\A s \in R : sig[s] = "expired" => ~verdict)
                     /\ ((fail = "none" /\ mapst = "ok" /\ \A s \in R : sig[s] \notin {"after_vu", "vu_m1"}) => verdict = Verify(ver, ev, sig, tm, pres))
                     /\ (~vol /\ fail = "none" /\ mapst = "ok" => verdict = Verify(ver, ev, sig, tm, pres))
 \* a missing / corrupted / wrong-key / out-of-validity signature from any one required server makes it fail
-POneBad == Done => (\A s \in R : sig[s] \in {"absent", "corrupt", "stale", "stale_kept", "wrongkey", "unknownkey", "expired", "exp_eq", "malformed", "vouched"} => ~verdict)
+POneBad == Single => (\A s \in R : sig[s] \in {"absent", "corrupt", "stale", "stale_kept", "wrongkey", "unknownkey", "expired", "exp_eq", "malformed", "vouched"} => ~verdict)
 \* signatures of other servers never matter
-POthers == (Done /\ mapst = "ok") => verdict = Verify(ver, ev, [s \in Servers |-> IF s \in R THEN Eff(sig[s], src[s], vol, fail) ELSE "absent"], tm, pres)
+POthers == (Single /\ mapst = "ok") => verdict = Verify(ver, ev, [s \in Servers |-> IF s \in R THEN Eff(sig[s], src[s], vol, fail) ELSE "absent"], tm, pres)
 \* sanity of Required
 PRequired ==
     /\ "s1" \in R
@@ -276,6 +420,29 @@ PRequired ==
     /\ (BaseOf(ver) < 8 /\ ev.kind = "join" /\ EventIDFormat(ver) # 1 => R = {"s1"})
     /\ Cardinality(R) <= 3
 \* strictness only ever matters through the validity period
-PStrict == (Done /\ tm = "normal" /\ fail = "none" /\ mapst = "ok" /\ \A s \in R : sig[s] \notin {"after_vu", "vu_m1"}) =>
+PStrict == (Single /\ InThePast(tm) /\ fail = "none" /\ mapst = "ok" /\ \A s \in R : sig[s] \notin {"after_vu", "vu_m1"}) =>
               (verdict <=> \A s \in R : sig[s] \in GoodStates)
+\* the ends of the time line are instants like any other: 0 and 1 get the verdict of any instant in the past, the
+\* far ones that of any instant more than 7 days ahead
+PInstants == Single =>
+    /\ (tm \in {"at0", "at1"} => verdict = (Verify(ver, ev, EffSig(sig, src, vol, fail), "normal", pres) /\ mapst = "ok"))
+    /\ (tm \in {"atwrap", "atmax"} => verdict = (Verify(ver, ev, EffSig(sig, src, vol, fail), "future8d", pres) /\ mapst = "ok"))
+    /\ (tm \in Instants => \A s \in Servers : sig[s] \notin Unrealisable(tm))
+    /\ (tm \in {"at0", "at1"} /\ (\A s \in R : sig[s] = "ok") => verdict)
+
+\* --- batches: the property, restated over the outcome (independent of the one-request mechanics) ----
+Batch == Done /\ bt # NoBatch
+\* being verified together with other messages changes nothing: every message gets the verdict it gets alone
+\* (the sources asked for just its own instant)
+PBatchAlone == Batch => \A x \in DOMAIN bt.ats : bres.verds[x] = MsgVerdict(ver, ev, bt, x, bt.ats[x])
+\* the one request serves every message: it is for an instant of the batch that no message lies after
+PBatchAsk == Batch => /\ \E x \in DOMAIN bt.ats : bres.asked = bt.ats[x]
+                      /\ \A x \in DOMAIN bt.ats : Rank(bt.ats[x]) <= Rank(bres.asked)
+\* a corrupted signature never verifies, and spoils no other message; without strict validity only it and a
+\* retired key can fail a message; a current key of 30 days serves every message in the past
+PBatchSane == Batch =>
+    /\ (bt.bad # 0 => ~bres.verds[bt.bad])
+    /\ (~StrictKeyValidity(ver) /\ bt.kv # "exp" => \A x \in DOMAIN bt.ats : bres.verds[x] = (x # bt.bad))
+    /\ (bt.kv \in {"cur", "notary"} => \A x \in DOMAIN bt.ats : Rank(bt.ats[x]) < NowRank /\ x # bt.bad => bres.verds[x])
+    /\ (StrictKeyValidity(ver) => \A x \in DOMAIN bt.ats : Rank(bt.ats[x]) > NowRank => ~bres.verds[x])
 =============================================================================
